@@ -89,6 +89,13 @@ func shardValue(table string, n int, variant int) interface{} {
 		}
 		return int32(n)
 	}
+	if shardBase != 0 {
+		// neighbouring shard ids beyond 2^53 (not told apart by a float64)
+		if variant != 0 {
+			return int(shardBase) + n
+		}
+		return shardBase + int64(n)
+	}
 	switch variant {
 	case 1:
 		return int32(n)
@@ -97,6 +104,9 @@ func shardValue(table string, n int, variant int) interface{} {
 	}
 	return int64(n)
 }
+
+// shardBase is added to row_a's shard ids while a world is generated (0 = small ids)
+var shardBase int64
 
 var secondCol = map[string]string{"row_a": "i8", "row_b": "p_i32", "row_c": "i_n_s"}
 
@@ -115,6 +125,11 @@ func setField(row interface{}, col string, v interface{}) {
 
 func gen(t *rapid.T) world {
 	w := world{table: rapid.SampledFrom(sw.Tables).Draw(t, "table")}
+	shardBase = 0
+	if w.table == "row_a" && rapid.IntRange(0, 2).Draw(t, "bigshard") == 0 {
+		shardBase = 1<<53 - 1
+	}
+	defer func() { shardBase = 0 }()
 	limVal := rapid.IntRange(1, 2).Draw(t, "limval")
 	mk := func(two bool) limitSpec {
 		l := limitSpec{cols: []string{"shard"}, vals: []interface{}{shardValue(w.table, limVal, 0)}}
